@@ -490,6 +490,73 @@ def r8_cluster_pointers_are_tail_offsets(cx):
         o.rule = "R8"
 
 
+R9_EXEMPT = {
+    "clusterwriter.serialize_cluster_tail": "the cluster was filled by ClusterCreator::add_content, which asserts len < MAX_BLOBS_PER_CLUSTER (0xFFF) before every push (C01-R2)",
+}
+
+
+def r9_counts_are_not_truncated(cx):
+    """'sizes, tables': a count written in a 1- or 2-byte field (properties, variants, value stores, packs) is the number
+    of things that follow it. Wherever the creator narrows a `len()` to u8 / u16, a comparison of that very count with
+    a constant (an `assert!`, an error return) or a checked conversion dominates the cast -- a count one past the
+    field's maximum otherwise wraps to 0 and the file describes fewer things than it holds."""
+    F = cx.F
+    W = {"u8": 1, "u16": 2, "u32": 4, "u64": 8, "usize": 8}
+    n = 0
+    for f in F.live_fns:
+        if "blocks" not in f or not re.search(r"creator::|^tools::", f["name"]):
+            continue
+        b = None
+        sites = {}
+        for i, blk in enumerate(f["blocks"]):
+            if blk.get("cleanup"):
+                continue
+            for st in blk["s"]:
+                if not (st["k"] == "assign" and st["rv"]["k"] == "cast"):
+                    continue
+                src = op_place(st["rv"]["op"])
+                if src is None or src.get("p"):
+                    continue
+                to = f["locals"][st["lhs"]["l"]].get("ty")
+                frm = f["locals"][src["l"]].get("ty")
+                if to not in ("u8", "u16") or frm not in W or W[frm] <= W[to]:
+                    continue
+                b = b or F.body(f)
+                o = b.origins(st["rv"]["op"])
+                lens = [x[1] for x in o if x[0] == "call" and call_is(b.term(x[1]), r"::len$")]
+                if not lens:
+                    continue
+                # guard: a switch dominating the cast whose condition compares a value derived from the same len() with a constant
+                guarded = False
+                for sblk in range(b.n):
+                    t = b.term(sblk)
+                    if t["k"] != "switch" or sblk == i or not b.dominates(sblk, i):
+                        continue
+                    for d in b.defs().get(op_local(t["op"]), []) if op_local(t["op"]) is not None else []:
+                        if d[0] == "stmt" and d[3]["rv"]["k"] == "bin" and d[3]["rv"]["op"] in ("Lt", "Le", "Gt", "Ge"):
+                            oa, ob = b.origins(d[3]["rv"]["a"]), b.origins(d[3]["rv"]["b"])
+                            fields = {x for l in lens for x in b.origins(b.term(l)["args"][0]) if x[0] == "field"}
+                            recv = {x for l in lens for x in b.origins(b.term(l)["args"][0], through_calls=False) if x[0] in ("call", "param", "local")}
+                            same = any(("call", l) in oa | ob for l in lens) or any(
+                                x[0] == "call" and call_is(b.term(x[1]), r"::len$") and ((fields and fields <= b.origins(b.term(x[1])["args"][0])) or
+                                                                                        (not fields and recv & b.origins(b.term(x[1])["args"][0], through_calls=False))) for x in oa | ob)
+                            if same and (op_const_deep(b, d[3]["rv"]["a"]) is not None or op_const_deep(b, d[3]["rv"]["b"]) is not None
+                                                                              or any(x[0] == "const" for x in oa) and not any(x[0] == "call" for x in oa) or any(x[0] == "const" for x in ob) and not any(x[0] == "call" for x in ob)):
+                                guarded = True
+                sites.setdefault(st.get("ln"), []).append(guarded)
+        for ln, gs in sorted(sites.items()):
+            n += 1
+            nm = ((f.get("impl_self") or "").split("<")[0].split("::")[-1] + "." + f["item_name"]) if f.get("impl_self") and f.get("item_name") else ".".join(re.sub(r"<.*?>", "", f["name"]).split("::")[-2:])
+            nm = re.sub(r"\{closure#\d+\}", "{closure}", nm if f.get("kind") != "closure" else re.sub(r"<.*?>", "", f["name"]).split("::")[-2] + ".{closure}")
+            if nm in R9_EXEMPT:
+                cx.ob("R9", "R9/%s/exempt" % nm, True, f, "narrowing at line %s is bounded elsewhere: %s" % (ln, R9_EXEMPT[nm]), ln=ln, trivial=True)
+                continue
+            cx.ob("R9", "R9/%s/count-narrowed-under-a-guard#%d" % (nm, sorted(sites).index(ln)), all(gs), f,
+                  "a len() is narrowed to a 1/2-byte count at line %s: a comparison of that count with a constant dominates the cast" % ln, ln=ln)
+    if n < 5:
+        raise AnchorLost("count narrowing sites in the creator: %d" % n)
+
+
 def r2c_content_address_key_byte(cx):
     """key byte of a content-address property: 0b0001_DPCC -- the P bit (pack id on two bytes) is set whenever
     pack_id_size is U2, whether or not the column has a default value (D): under `pack_id_size = U2` no write of the
@@ -514,6 +581,7 @@ def r2c_content_address_key_byte(cx):
 
 
 RULES = [
+    ("R9", r9_counts_are_not_truncated, 5),
     ("R2", r2c_content_address_key_byte, 1),
     ("R8", r8_cluster_pointers_are_tail_offsets, 3),
     ("R7", r7_plain_store_size_matches_data, 2),
